@@ -129,7 +129,12 @@ impl Cache for MemoryStore {
     fn flush(&self, header: CacheMetaData) {
         if header.time_to_live > 0 {
             self.memory.alter_all(|_key, mut value| {
-                value.header.time_to_live = header.time_to_live;
+                // delayed flush must not prolong life of an item
+                if value.header.time_to_live == 0
+                    || value.header.time_to_live > header.time_to_live
+                {
+                    value.header.time_to_live = header.time_to_live;
+                }
                 value
             });
         } else {
